@@ -21,9 +21,13 @@ import (
 func init() { profiles["merge"] = profMerge }
 
 // keys of awkward shapes: lengths 1..300, bytes >= 0x80 that look like varint continuations
-func mergeKeys(en *Env, n int) *h.Keys {
+func mergeKeys(en *Env, n int, big bool) *h.Keys {
 	r := en.R
 	lens := []int{1, 2, 5, 9, 63, 64, 127, 128, 129, 255, 300}
+	if big {
+		// a few very long keys: the hint file (one entry per live key) then spans several 32 KiB blocks
+		lens = []int{5, 64, 300, 9000, 17000, 33000, 40000}
+	}
 	seen := map[string]bool{}
 	var ks [][]byte
 	for len(ks) < n {
@@ -198,8 +202,10 @@ func mergeTrace(en *Env, cfg h.Cfg, t int) (merges, mok int) {
 	dir := en.FreshDir()
 	defer en.Drop(dir)
 	var u *h.Keys
-	if t%2 == 0 {
-		u = mergeKeys(en, nkeys)
+	if t%4 == 2 {
+		u = mergeKeys(en, nkeys, true)
+	} else if t%2 == 0 {
+		u = mergeKeys(en, nkeys, false)
 	} else {
 		u = h.SimpleKeys(nkeys, 5+r.Intn(10))
 	}
